@@ -26,20 +26,43 @@ DROP_OK = {
 }
 
 
+# the same reasons, keyed by the variant of the parser model (a renamed or split constructor keeps them)
+DROP_OK_BY_VARIANT = {
+    ("Misc", "Whitespace"): "white space between markup in prolog / epilog is not an information item",
+    ("InternalSubset", "Whitespace"): "white space in the internal subset is not an information item",
+    ("DeclarationMarkup", "Commnect"): "comments inside the DTD are not part of the information set (Infoset 2.4 note)",
+    ("DeclarationMarkup", "Element"): "element type declarations have no information item",
+}
+
 CONSTRUCTOR_FNS = ("node", "new", "from", "add_misc", "attribute_name", "qname", "external_id")
 
 
 def pattern_bindings(pat):
-    """(variant name, [binding lids], has_wild_payload)"""
+    """[(variant name, [binding lids], has_wild_payload, path)] - one entry per *leaf* variant: a pattern that wraps another
+    variant pattern of the parser model (`InternalSubset::Markup(DeclarationMarkup::Attributes(v))`) is described by the inner
+    variant, so a nested `match` and its flattened form give the same entries."""
     out = []
     for p in ([pat] if pat.get("p") != "Or" else pat["pats"]):
-        if p.get("p") == "Ref":
+        while p.get("p") in ("Ref", "Deref"):
             p = p["sub"]
+        if p.get("p") == "Or":
+            out += pattern_bindings(p)
+            continue
         if p.get("p") in ("TupleStruct", "Struct", "Expr"):
             path = p.get("path") or p.get("e", {}).get("path") or ""
             variant = path.split("::")[-1]
+            subs = p.get("pats") or [x["pat"] for x in p.get("fields", [])]
+            inner = subs[0] if len(subs) == 1 else None
+            while inner is not None and inner.get("p") in ("Ref", "Deref"):
+                inner = inner["sub"]
+            if inner is not None and (inner.get("p") in ("TupleStruct", "Struct", "Or") or
+                                      (inner.get("p") == "Expr" and inner["e"].get("k") == "Path")) and \
+                    all("::model::" in str(q.get("path") or q.get("e", {}).get("path") or "")
+                        for q in ([inner] if inner.get("p") != "Or" else inner["pats"]) if q.get("p") != "Or"):
+                out += pattern_bindings(inner)
+                continue
             binds, wild = [], False
-            for q in walk(p.get("pats") or [x["pat"] for x in p.get("fields", [])]):
+            for q in walk(subs):
                 if q.get("p") == "Bind":
                     binds.append((q["lid"], q["name"]))
                 elif q.get("p") == "Wild":
@@ -109,7 +132,8 @@ def r01_3(facts, res):
                     drops = (wild and has_payload and variant != "_" and _variant_has_fields(facts, sty, variant)) or unused or \
                         (body_empty and _variant_has_fields(facts, sty, variant)) or variant == "_"
                     if drops:
-                        if (f["path"], variant) in DROP_OK:
+                        leaf_enum = path.split("::")[-2] if path.count("::") >= 1 else enum_name
+                        if (f["path"], variant) in DROP_OK or (leaf_enum, variant) in DROP_OK_BY_VARIANT:
                             st["dropped_reasoned"] += 1
                             res.oblige(1, True)
                             continue
@@ -126,7 +150,7 @@ def r01_3(facts, res):
     # order of head / child / tail in XmlElement::node
     f = facts.fn("xml_info::XmlElement::node")
     ok = False
-    for n in walk(f["body"]):
+    for n in (m for g in facts.family(f) for m in walk(g["body"])):
         if n.get("k") == "Match" and n.get("src") == "ForLoop":
             # loop body block: statements in order
             # the block of the loop over content cells: the first statement that reads `cell.child` comes before the first
